@@ -896,6 +896,38 @@ erase_memory(struct caption *cc, cc_channel *ch, int page)
 	pg->dirty.roll = ROWS;
 }
 
+/*
+ *  47 CFR 15.119 (f)(1)(ii): When the base row of a roll-up caption
+ *  changes "the entire window will move intact (and without erasing)
+ *  to the new base row immediately".
+ */
+static void
+move_window(struct caption *cc, cc_channel *ch, int new_row1)
+{
+	vbi_char c = cc->transp_space[ch >= &cc->channel[4]];
+	vbi_char window[4 * COLUMNS];
+	unsigned int size = ch->roll * COLUMNS;
+	unsigned int i;
+	int page;
+
+	for (page = 0; page < 2; page++) {
+		vbi_char *acp = ch->pg[page].text;
+
+		memcpy(window, acp + ch->row1 * COLUMNS,
+		       size * sizeof(*acp));
+
+		for (i = 0; i < size; i++)
+			acp[ch->row1 * COLUMNS + i] = c;
+
+		memcpy(acp + new_row1 * COLUMNS, window,
+		       size * sizeof(*acp));
+	}
+
+	ch->row1 = new_row1;
+
+	clear(ch->pg + (ch->hidden ^ 1));
+}
+
 static const vbi_color
 palette_mapping[8] = {
 	VBI_WHITE, VBI_GREEN, VBI_BLUE, VBI_CYAN,
@@ -942,11 +974,8 @@ caption_command(vbi_decoder *vbi, struct caption *cc,
 			if (row1 < 0)
 				row1 = 0;
 
-			if (row1 != ch->row1) {
-				ch->row1 = row1;
-				erase_memory(cc, ch, ch->hidden);
-				erase_memory(cc, ch, ch->hidden ^ 1);
-			}
+			if (row1 != ch->row1)
+				move_window(cc, ch, row1);
 
 			set_cursor(ch, 1, ch->row1 + ch->roll - 1);
 		} else
@@ -1058,8 +1087,39 @@ caption_command(vbi_decoder *vbi, struct caption *cc,
 
 			ch = switch_channel(cc, ch, chan & 3);
 
-			if (ch->mode == MODE_ROLL_UP && ch->roll == roll)
+			if (ch->mode == MODE_ROLL_UP) {
+				int row = ch->row1 + ch->roll - 1;
+
+				if (ch->roll == roll)
+					return;
+
+				/* 47 CFR 15.119 (f)(1): The depth of the
+				   window changes, the base row, the cursor
+				   and the rows of the smaller window stay. */
+
+				if (row < roll - 1) {
+					/* Window would extend above row 1. */
+					move_window(cc, ch, ch->row1 + roll - 1 - row);
+					row = roll - 1;
+					set_cursor(ch, ch->col, row);
+				}
+
+				for (; ch->row1 < row - roll + 1; ch->row1++) {
+					vbi_char c = cc->transp_space[0];
+
+					for (i = 0; i < COLUMNS; i++) {
+						ch->pg[0].text[ch->row1 * COLUMNS + i] = c;
+						ch->pg[1].text[ch->row1 * COLUMNS + i] = c;
+					}
+				}
+
+				ch->roll = roll;
+				ch->row1 = row - roll + 1;
+
+				clear(ch->pg + (ch->hidden ^ 1));
+
 				return;
+			}
 
 			erase_memory(cc, ch, ch->hidden);
 			erase_memory(cc, ch, ch->hidden ^ 1);
